@@ -472,3 +472,9 @@ theorem pwrite_fold (blocks : List Block) : ∀ (f : Buf) (off : Nat) (written :
     rw [this, append_assoc]
 
 end KV.Sort
+
+namespace KV.Sort
+theorem stream_write_roundtrip_aux' (cap : Nat) (pad : Buf) (f : Nat) (bytes : Buf) :
+    writeAndRecycle [] (streamToBlocks cap pad f bytes) = bytes := by
+  simpa using stream_write_aux cap pad f bytes []
+end KV.Sort
